@@ -59,6 +59,15 @@ func (f *flakyRW) ReadableLen() int            { return f.n }
 func (f *flakyRW) Read(p []byte) (int, error)  { return minInt(f.rn, len(p)), f.rerr }
 func (f *flakyRW) Write(p []byte) (int, error) { return minInt(f.wn, len(p)), f.werr }
 
+// lenLike has every length-like method one could think of, except ReadableLen.
+type lenLike struct{ bytes.Buffer }
+
+func (l *lenLike) Len() int               { return 5 }
+func (l *lenLike) Size() int              { return 6 }
+func (l *lenLike) Available() int         { return 7 }
+func (l *lenLike) RemainingBytes() uint64 { return 8 }
+func (l *lenLike) Readable() int          { return 9 }
+
 // fullTransport has every TTransport method plus ReadableLen; its own RemainingBytes answers a sentinel.
 type fullTransport struct {
 	bytes.Buffer
@@ -471,6 +480,15 @@ func checkBridge(c BridgeCase, cv *cov) (v *evid.Violation) {
 					v = evid.Failf("generic transport over an uncomparable struct value does not pass Write through")
 					return
 				}
+			}
+		}
+		// objects that expose OTHER length-like methods (Len, Size, Available, RemainingBytes) but no ReadableLen:
+		// "unknown", whatever those methods say
+		emb := struct{ *bytes.Buffer }{bytes.NewBufferString("unread data")}
+		for name, o := range map[string]io.ReadWriter{"struct embedding *bytes.Buffer (Len() = 11)": emb, "object with Len/Size/Available/RemainingBytes": &lenLike{}} {
+			if got := apache.NewDefaultTransport(o).RemainingBytes(); got != math.MaxUint64 {
+				v = evid.Failf("generic transport over a %s, which has no ReadableLen method: RemainingBytes()=%d, want max uint64", name, got)
+				return
 			}
 		}
 		inner := &rwPlain{}
